@@ -134,32 +134,35 @@ MechMethod(o) ==
 \* ------------------------------------------------------------ dispatch machine
 NoHit == [id |-> 0, args |-> <<>>]
 NoTaken == [has |-> FALSE, opts |-> <<>>, path |-> <<>>, i |-> 0]
-First(os) == IF Mut = "reverse" THEN Len(os) ELSE 1
-Step1(i) == IF Mut = "reverse" THEN i - 1 ELSE i + 1
-Past(i, os) == IF Mut = "reverse" THEN i < 1 ELSE i > Len(os)
+\* the scan of one level as one step: the first option, in scan order, whose method filter passes
+\* and whose pattern the backtracking matcher accepts (seeded fault "reverse": scanned from the end)
+ScanFirst(os) ==
+    LET OK == { i \in 1..Len(os) : MechMethod(os[i]) /\ MechMatch(os[i].pat, path).ok }
+    IN IF OK = {} THEN 0
+       ELSE IF Mut = "reverse" THEN CHOOSE i \in OK : \A j \in OK : j <= i
+       ELSE CHOOSE i \in OK : \A j \in OK : i <= j
 
 InitRoute ==
     /\ mode = "route"
     /\ meth \in Methods /\ path \in Requests /\ depth = 1
-    /\ opts \in LevelLists(1) /\ idx = First(opts)
+    /\ opts \in LevelLists(1) /\ idx = 0
     /\ out = "run" /\ hit = NoHit /\ taken = NoTaken
 
 Try ==
     /\ mode = "route" /\ out = "run"
-    /\ IF Past(idx, opts)
-       THEN out' = "nf" /\ taken' = NoTaken /\ UNCHANGED <<mode, meth, path, depth, opts, idx, hit>>
-       ELSE LET o == opts[idx]
-                r == MechMatch(o.pat, path)
-            IN IF MechMethod(o) /\ r.ok
-               THEN IF o.t = "h"
-                    THEN /\ out' = "hit" /\ hit' = [id |-> o.id, args |-> Sel(path, r.g, o.sel)]
-                         /\ taken' = [has |-> TRUE, opts |-> opts, path |-> path, i |-> idx]
-                         /\ UNCHANGED <<mode, meth, path, depth, opts, idx>>
-                    ELSE /\ path' = r.g[o.sel] /\ depth' = depth + 1
-                         /\ opts' \in LevelLists(depth + 1) /\ idx' = First(opts')
-                         /\ taken' = [has |-> TRUE, opts |-> opts, path |-> path, i |-> idx]
-                         /\ UNCHANGED <<mode, meth, out, hit>>
-               ELSE idx' = Step1(idx) /\ taken' = NoTaken /\ UNCHANGED <<mode, meth, path, depth, opts, out, hit>>
+    /\ LET i == ScanFirst(opts)
+       IN IF i = 0
+          THEN out' = "nf" /\ taken' = NoTaken /\ UNCHANGED <<mode, meth, path, depth, opts, idx, hit>>
+          ELSE LET o == opts[i]
+                   r == MechMatch(o.pat, path)
+               IN IF o.t = "h"
+                  THEN /\ out' = "hit" /\ hit' = [id |-> o.id, args |-> Sel(path, r.g, o.sel)]
+                       /\ taken' = [has |-> TRUE, opts |-> opts, path |-> path, i |-> i]
+                       /\ UNCHANGED <<mode, meth, path, depth, opts, idx>>
+                  ELSE /\ path' = r.g[o.sel] /\ depth' = depth + 1
+                       /\ opts' \in LevelLists(depth + 1) /\ idx' = 0
+                       /\ taken' = [has |-> TRUE, opts |-> opts, path |-> path, i |-> i]
+                       /\ UNCHANGED <<mode, meth, out, hit>>
 
 \* ------------------------------------------------------------ map-then-route chains
 Tmpl(p) ==       \* mapper template of a pattern: literals kept, groups numbered in order
@@ -309,7 +312,7 @@ NoPrefix ==
           MpMatches(mcase.mp, mcase.h, mcase.s, mcase.p)              \* host / script name / path info matched entirely
 
 MatcherAgrees ==        \* evaluated once per level (when the level is entered)
-    (mode = "route" /\ out = "run" /\ idx = First(opts)) =>
+    (mode = "route" /\ out = "run") =>
         \A i \in 1..Len(opts) :
             LET r == BT(opts[i].pat, 1, path, 1, TRUE)
                 ms == MatchSet(opts[i].pat, path)
